@@ -9,6 +9,7 @@
 #include <string>
 #include "tfhe.h"
 using namespace std;
+extern "C" void tLweNoiselessTrivialT(TLweSample *result, const Torus32 mu, const TLweParams *params);
 static uint64_t rs = 88172645463325252ull;
 static uint32_t rnd() { rs ^= rs << 13; rs ^= rs >> 7; rs ^= rs << 17; return (uint32_t)(rs >> 11); }
 static int32_t val() { uint32_t r = rnd(); switch (r % 9) { case 0: return INT32_MIN; case 1: return INT32_MAX; case 2: return 0; case 3: return -1; case 4: return 1; default: return (int32_t)rnd(); } }
@@ -116,12 +117,88 @@ static int decomp(int l, int Bgbit) {
     }
     return 0;
 }
+static int phase_pairing() {
+    for (int n = 1; n <= 70; n++) for (int rep = 0; rep < 20; rep++) {
+        LweParams *par = new_LweParams(n, 0., 0.); LweSample *s = new_LweSample(par); LweKey *k = new_LweKey(par);
+        uint32_t acc = 0;
+        for (int i = 0; i < n; i++) { s->a[i] = val(); k->key[i] = (rep & 1) ? (int32_t)(rnd() & 1) : val(); acc += U(s->a[i]) * U(k->key[i]); }
+        s->b = val();
+        uint32_t got = U(lwePhase(s, k)), e = U(s->b) - acc;
+        if (got != e) FAIL("lwePhase: n=%d: got %u expected %u (b - sum a_i*s_i mod 2^32)", n, got, e);
+        delete_LweKey(k); delete_LweSample(s); delete_LweParams(par);
+    }
+    return 0;
+}
+static int tlwe(const string &f) {
+    for (int N : {1, 2, 3, 8, 16, 17}) for (int k : {1, 2, 3}) for (int32_t p : PS) {
+        TLweParams *tp = new_TLweParams(N, k, 0., 0.); TLweSample *r = new_TLweSample(tp), *s = new_TLweSample(tp); TorusPolynomial *mu = new_TorusPolynomial(N);
+        vector<vector<int32_t> > r0(k + 1, vector<int32_t>(N)), s0(k + 1, vector<int32_t>(N));
+        for (int i = 0; i <= k; i++) for (int j = 0; j < N; j++) { r->a[i].coefsT[j] = r0[i][j] = val(); s->a[i].coefsT[j] = s0[i][j] = val(); }
+        for (int j = 0; j < N; j++) mu->coefsT[j] = val();
+        int ex = rnd() % (2 * N), pos = rnd() % (k + 1); int32_t x = val();
+        if (f == "tLweClear") tLweClear(r, tp); else if (f == "tLweCopy") tLweCopy(r, s, tp); else if (f == "tLweNoiselessTrivial") tLweNoiselessTrivial(r, mu, tp);
+        else if (f == "tLweNoiselessTrivialT") tLweNoiselessTrivialT(r, x, tp); else if (f == "tLweAddTo") tLweAddTo(r, s, tp); else if (f == "tLweSubTo") tLweSubTo(r, s, tp);
+        else if (f == "tLweAddMulTo") tLweAddMulTo(r, p, s, tp); else if (f == "tLweSubMulTo") tLweSubMulTo(r, p, s, tp);
+        else if (f == "tLweMulByXaiMinusOne") tLweMulByXaiMinusOne(r, ex, s, tp); else if (f == "tLweAddTTo") tLweAddTTo(r, pos, x, tp); else return 2;
+        for (int i = 0; i <= k; i++) for (int j = 0; j < N; j++) {
+            uint32_t o = U(r0[i][j]), y = U(s0[i][j]), e, got = U(r->a[i].coefsT[j]);
+            if (f == "tLweClear") e = 0; else if (f == "tLweCopy") e = y; else if (f == "tLweNoiselessTrivial") e = i == k ? U(mu->coefsT[j]) : 0;
+            else if (f == "tLweNoiselessTrivialT") e = (i == k && j == 0) ? U(x) : 0; else if (f == "tLweAddTo") e = o + y; else if (f == "tLweSubTo") e = o - y;
+            else if (f == "tLweAddMulTo") e = o + U(p) * y; else if (f == "tLweSubMulTo") e = o - U(p) * y;
+            else if (f == "tLweMulByXaiMinusOne") e = xai(s0[i], N, ex, j) - y; else e = o + ((i == pos && j == 0) ? U(x) : 0u);
+            if (got != e) FAIL("%s: N=%d k=%d p=%d a=%d polynomial %d coefficient %d: got %u expected %u", f.c_str(), N, k, p, ex, i, j, got, e);
+            if (s->a[i].coefsT[j] != s0[i][j]) FAIL("%s: input modified", f.c_str());
+        }
+        delete_TorusPolynomial(mu); delete_TLweSample(r); delete_TLweSample(s); delete_TLweParams(tp);
+    }
+    return 0;
+}
+static int mult(const string &f) {
+    for (int N : {1, 2, 4, 8, 16, 32, 64, 128}) for (int rep = 0; rep < 6; rep++) {
+        IntPolynomial *a = new_IntPolynomial(N); TorusPolynomial *b = new_TorusPolynomial(N), *r = new_TorusPolynomial(N); vector<uint32_t> r0(N), full(2 * N, 0);
+        for (int i = 0; i < N; i++) { a->coefs[i] = rep == 0 ? (i == N - 1) : val(); b->coefsT[i] = rep == 0 ? ((i == N - 1) ? INT32_MIN : 0) : val(); r->coefsT[i] = val(); r0[i] = U(r->coefsT[i]); }
+        for (int i = 0; i < N; i++) for (int j = 0; j < N; j++) full[i + j] += U(a->coefs[i]) * U(b->coefsT[j]);
+        if (f == "naive") torusPolynomialMultNaive(r, a, b); else if (f == "torusPolynomialMultKaratsuba") torusPolynomialMultKaratsuba(r, a, b);
+        else if (f == "torusPolynomialAddMulRKaratsuba") torusPolynomialAddMulRKaratsuba(r, a, b); else if (f == "torusPolynomialSubMulRKaratsuba") torusPolynomialSubMulRKaratsuba(r, a, b); else return 2;
+        for (int k = 0; k < N; k++) {
+            uint32_t pr = full[k] - full[k + N], e = f == "torusPolynomialAddMulRKaratsuba" ? r0[k] + pr : f == "torusPolynomialSubMulRKaratsuba" ? r0[k] - pr : pr;
+            if (U(r->coefsT[k]) != e) FAIL("%s: N=%d coefficient %d: got %u expected %u (product in Z[X]/(X^N+1))", f.c_str(), N, k, U(r->coefsT[k]), e);
+        }
+        delete_IntPolynomial(a); delete_TorusPolynomial(b); delete_TorusPolynomial(r);
+    }
+    return 0;
+}
+static int keyswitch(int t, int basebit, int n) {
+    // noiseless table with one-coefficient rows whose b identifies the row: result.b reveals exactly which rows were subtracted
+    LweParams *op = new_LweParams(1, 0., 0.); LweKeySwitchKey *ks = new_LweKeySwitchKey(n, t, basebit, op); int base = 1 << basebit;
+    for (int i = 0; i < n; i++) for (int j = 0; j < t; j++) for (int h = 0; h < base; h++) { ks->ks[i][j][h].a[0] = 0; ks->ks[i][j][h].b = (int32_t)(1000003u * (uint32_t)((i * t + j) * base + h) + 12345u); ks->ks[i][j][h].current_variance = 0; }
+    LweParams *ip = new_LweParams(n, 0., 0.); LweSample *in = new_LweSample(ip), *out = new_LweSample(op);
+    int k = 32 - t * basebit;
+    for (int rep = 0; rep < 4000; rep++) {
+        uint32_t exp = 0;
+        for (int i = 0; i < n; i++) {
+            uint32_t a = rep < 40 ? (0x7FFFFFFFu - (uint32_t)rep) : rep < 80 ? (0xFFFFFFFFu - (uint32_t)(rep - 40)) : U(val());
+            in->a[i] = (int32_t)a;
+            uint64_t top = (((uint64_t)a + ((uint64_t)1 << (k - 1))) >> k) & ((((uint64_t)1) << (t * basebit)) - 1);
+            for (int j = 0; j < t; j++) { uint32_t d = (uint32_t)(top >> ((t - 1 - j) * basebit)) & (uint32_t)(base - 1); if (d) exp += U(ks->ks[i][j][d].b); }
+        }
+        in->b = val();
+        lweKeySwitch(out, ks, in);
+        if (U(out->b) != U(in->b) - exp || out->a[0] != 0) FAIL("lweKeySwitch t=%d basebit=%d n=%d: rows subtracted differ from the rows of the round-to-nearest digits (a[0]=%u)", t, basebit, n, U(in->a[0]));
+    }
+    return 0;
+}
 int main(int argc, char **argv) {
     if (argc < 2) return 2;
     string f = argv[1];
+    if (f == "naive" || f.find("Karatsuba") != string::npos) return mult(f);
     if (f.compare(0, 3, "lwe") == 0) return lwe(f);
     if (f.find("Polynomial") != string::npos) return poly(f);
     if (f.find("Extract") != string::npos) return extract(f);
     if (f == "decomp" && argc >= 4) return decomp(atoi(argv[2]), atoi(argv[3]));
+    if (f == "pairing") return phase_pairing();
+    if (f == "keyswitch" && argc >= 5) return keyswitch(atoi(argv[2]), atoi(argv[3]), atoi(argv[4]));
+    if (f == "naive" || f.find("Karatsuba") != string::npos) return mult(f);
+    if (f.compare(0, 4, "tLwe") == 0 && f.find("Extract") == string::npos) return tlwe(f);
     return 2;
 }
